@@ -28,7 +28,10 @@ def main():
   rep = vlib.Report(PROP, "proof")
   from translate import lingen
   lgen = lingen.emit(vlib.GEN)
-  info = vlib.build_obligations(PROP, gen_files=[lgen], extra_files=[os.path.join(vlib.COQ, "theories", "Link", "LinLink.v")])
+  from translate import qbitsgen
+  qgen = qbitsgen.emit(vlib.GEN)
+  LK = os.path.join(vlib.COQ, "theories", "Link")
+  info = vlib.build_obligations(PROP, gen_files=[lgen, qgen], extra_files=[os.path.join(LK, "LinLink.v"), os.path.join(LK, "QBitsLink.v")])
   errs = rep.obligations(info, "python3 tools/translate/lingen.py coq/gen && coqc coq/gen/LinGen.v && coqc coq/theories/Link/LinLink.v && coqc coq/theories/Properties/C02.v (Print Assumptions under every theorem)")
   for e in errs:
     rep.violation("obligation-" + os.path.basename(e["file"]), "proof obligation no longer checks: " + e["error"][-400:],
